@@ -320,6 +320,16 @@ fn check(prop: &str, tier: Tier) -> CheckOutcome {
                     && String::from_utf8_lossy(&o.stdout).contains(&format!("class={}", min_v.class))
             })
             .unwrap_or(false);
+        if !replay_ok && min_v.class == "hang" {
+            // the watchdog is the one wall-clock judgement in the harness: a genuine spin
+            // reproduces in the fresh process (same 10 s watchdog); one that does not was a
+            // starved thread on a loaded machine and is dropped, not reported
+            eprintln!(
+                "NOTE: watchdog fired in unit {i} but the replay in a fresh process finished in time (loaded machine); not a violation"
+            );
+            let _ = std::fs::remove_file(&path);
+            continue;
+        }
         if !replay_ok {
             harness_errors.push(format!(
                 "replay of {path} in a fresh process did not reproduce class {}",
